@@ -169,6 +169,13 @@ func cmdList(args []string) {
 		fmt.Fprintln(os.Stderr, err)
 		os.Exit(2)
 	}
+	if os.Getenv("RAINVC_DEBUG") != "" {
+		for id := range g.fnByID {
+			if strings.Contains(id, "$") && strings.Contains(id, os.Getenv("RAINVC_DEBUG")) {
+				fmt.Println("literal:", id)
+			}
+		}
+	}
 	for _, id := range sortedKeys(g.cs.Funcs) {
 		fc := g.cs.Funcs[id]
 		_, ok := g.fnByID[id]
